@@ -910,10 +910,22 @@ func TestCheck(t *testing.T) {
 		nScen, nWinner, nLateClosed, nCancel, nTimeouts, nAfter, nJoined, nNoAddr, nWake, nWakeOld, nAttempts, nScanned, nCancelJoin atomic.Int64
 		inflightSeen                                                                                                                 [8]atomic.Int64
 	)
-	var nIncon atomic.Int64
+	// A bubble that ends with blocked goroutines keeps them (and their memory)
+	// for the rest of the process, and every such event costs a whole-process
+	// stack dump. After maxBubbleFailures of them the verdict is settled; the
+	// remaining scenarios are skipped (the floors then also report the gap).
+	const maxBubbleFailures = 64
+	var nIncon, nBubbleFail, nSkipped atomic.Int64
 	run := func(work string, i int, sc scenario) {
+		if nBubbleFail.Load() >= maxBubbleFailures && !r.Replaying() {
+			nSkipped.Add(1)
+			return
+		}
 		scan := r.Replaying() || i%1024 == 0
 		res := runScenario(t, &sc, scan)
+		if res.BubbleErr != "" {
+			nBubbleFail.Add(1)
+		}
 		fs, incon, st := check(&sc, res)
 		if r.Replaying() && len(fs) == 0 {
 			// Same-instant races inside Dial are scheduler dependent: when a single
@@ -997,6 +1009,9 @@ func TestCheck(t *testing.T) {
 	r.Parallel("rand", nRand, func(i int, rng *mrand.Rand) { run("rand", i, randScenario(rng)) })
 
 	r.Count("scenarios", nScen.Load())
+	if n := nSkipped.Load(); n > 0 {
+		r.Count("scenarios_skipped_after_repeated_goroutine_leaks", n)
+	}
 	r.Count("attempts_started", nAttempts.Load())
 	r.Count("scenarios_with_winner", nWinner.Load())
 	r.Count("late_winners_closed", nLateClosed.Load())
@@ -1019,7 +1034,8 @@ func TestCheck(t *testing.T) {
 	r.Extra("max_in_flight_seen", maxSeen)
 	r.Extra("grid_scenarios", gridSize())
 
-	// Floors: the grid alone (seed independent) provides each class; values are about half of what the grid yields.
+	// Floors: the seed-independent grid provides every class; the values are 5-20 times below what a quick run observes
+	// (same-instant ties make the counters vary by a fraction of a percent between runs).
 	r.Floor("scenarios", int64(gridSize()))
 	r.Floor("scenarios_with_winner", 20000)
 	r.Floor("late_winners_closed", 10000)
